@@ -22,6 +22,9 @@ def run_property(prop, tier, root=None, write=True, quiet=False):
     exmap._DEFS.clear()
     ctx = Ctx(prop, tier, repo)
     mod.run(ctx)
+    from .props import precision
+    if prop in precision.NUMERIC_PROPS:
+        precision.run(ctx)
     extra = None
     if tier == "thorough" and write:
         from . import thorough
